@@ -24,7 +24,7 @@ func Alphabet() []string {
 		}
 		a = append(a, "del "+k, "get "+k, "has "+k)
 	}
-	a = append(a, "iter ~ ~ 1", "begin", "csess", "dsess", "write", "commit", "reopen",
+	a = append(a, "iter ~ ~ 1", "itera ~ ~ 1", "begin", "csess", "dsess", "write", "commit", "reopen",
 		"getv 1 "+K1, "getv 2 "+K1)
 	return a
 }
@@ -107,7 +107,11 @@ func Random(r *rng.R, maxLen int, gasFamily bool) Case {
 			if r.Chance(1, 4) {
 				asc = "0"
 			}
-			c.Ops = append(c.Ops, "iter "+optKey(r)+" "+optKey(r)+" "+asc)
+			op := "iter "
+			if r.Chance(1, 2) {
+				op = "itera " // IterateRangeAll: also the keys pending in the block cache / session
+			}
+			c.Ops = append(c.Ops, op+optKey(r)+" "+optKey(r)+" "+asc)
 		case x < 69:
 			c.Ops = append(c.Ops, "begin")
 		case x < 75:
@@ -141,7 +145,7 @@ func Random(r *rng.R, maxLen int, gasFamily bool) Case {
 }
 
 func isRead(op string) bool {
-	return strings.HasPrefix(op, "get ") || strings.HasPrefix(op, "has ") || strings.HasPrefix(op, "iter ") ||
+	return strings.HasPrefix(op, "get ") || strings.HasPrefix(op, "has ") || strings.HasPrefix(op, "iter ") || strings.HasPrefix(op, "itera ") ||
 		strings.HasPrefix(op, "getv ") || op == "gas"
 }
 
